@@ -271,6 +271,25 @@ fn zero_residual_case<T: Sc>(rng: &mut Rng, case: u64, out: &mut CaseOut, ops: &
     exercise::<T>(&spec, &[], &cfg, out, ops);
 }
 
+/// (x) many observations: time and memory must stay proportional to N (a decay + offset on 1.2e5..1.6e5
+/// samples; anything quadratic in N needs > 100 GB and cannot be allocated on this machine)
+fn large_n_case<T: Sc>(rng: &mut Rng, case: u64, out: &mut CaseOut, ops: &OpLog) {
+    let n = rng.int(120_000, 160_000);
+    let t = rng.range(0.8, 1.6);
+    let x = grid(rng, n, 0.0, 4.0 * t, false);
+    let mut g = gen_problem_for(rng, &GenOpts { noise: 0.01, force_s: Some(1), ..Default::default() }, z1(x, 1, true), vec![t]);
+    g.spec.mrhs = false;
+    g.spec.par = rng.chance(0.5);
+    g.spec.alpha0 = vec![t * rng.range(0.8, 1.25)];
+    out.nontrivial.push(g.spec.alpha0[0].to_bits() ^ n as u64);
+    out.seen("classes", "large N (1.2e5..1.6e5 observations)");
+    out.count("large_n_cases");
+    if case < 1_000_000 {
+        out.sample(json!({"class": "large-N", "N": n, "parallel": g.spec.par}));
+    }
+    exercise::<T>(&g.spec, &[], &LmCfg::default_cfg(), out, ops);
+}
+
 /// (viii) whatever the model builder accepts must be usable: models built from random (near-valid)
 /// builder programs with closures of arbitrary arity are evaluated, differentiated and fitted
 fn builder_program_case(rng: &mut Rng, case: u64, out: &mut CaseOut, ops: &OpLog) {
@@ -317,6 +336,10 @@ fn builder_program_case(rng: &mut Rng, case: u64, out: &mut CaseOut, ops: &OpLog
 
 pub fn case(rng: &mut Rng, case: u64, out: &mut CaseOut, ops: &OpLog) {
     let f32_ = rng.chance(0.3);
+    // two cases in ten thousand are large (about two per profile in the quick tier)
+    if case % 5000 == 2500 {
+        return if f32_ { large_n_case::<f32>(rng, case, out, ops) } else { large_n_case::<f64>(rng, case, out, ops) };
+    }
     if rng.chance(0.15) {
         return builder_program_case(rng, case, out, ops);
     }
@@ -353,7 +376,7 @@ pub fn case(rng: &mut Rng, case: u64, out: &mut CaseOut, ops: &OpLog) {
 }
 
 pub fn run(ctx: &Ctx) {
-    ctx.rule("cases: (a) multi-exponential fits from random starts (tau in [-10,10], 0.2x-5x and -1x..3x the truth) under default and random optimizer settings; (b) zoo problems with values from the hostile IEEE-754 pool {0,-0,+-1,NaN,+-inf,+-MAX,MIN_POSITIVE,5e-324,1e+-300,1e+-154,...} substituted into x, y, w, alpha, epsilon with probability 0.02..0.6; (d) models accepted by the model builder from random near-valid builder programs (closures of arity 1..10) are evaluated, differentiated and fitted; (c) table models N=1..9 (including N<M), M=1..4, P=1..3, S=1..3 with hostile entries in values and derivatives; (e) exactly zero observations with finite basis functions and hostile derivatives (the fit succeeds without ever requesting a Jacobian, so the statistics meet the derivatives first); 30% f32; each case = build, 0..3 parameter updates with queries, fit, fit_with_statistics and every statistics accessor, executed in a child process under a CPU-time watchdog. distinct = hash of the generated problem; non-trivial = hostile value injected or random start");
+    ctx.rule("cases: (a) multi-exponential fits from random starts (tau in [-10,10], 0.2x-5x and -1x..3x the truth) under default and random optimizer settings; (b) zoo problems with values from the hostile IEEE-754 pool {0,-0,+-1,NaN,+-inf,+-MAX,MIN_POSITIVE,5e-324,1e+-300,1e+-154,...} substituted into x, y, w, alpha, epsilon with probability 0.02..0.6; (d) models accepted by the model builder from random near-valid builder programs (closures of arity 1..10) are evaluated, differentiated and fitted; (c) table models N=1..9 (including N<M), M=1..4, P=1..3, S=1..3 with hostile entries in values and derivatives; (e) exactly zero observations with finite basis functions and hostile derivatives (the fit succeeds without ever requesting a Jacobian, so the statistics meet the derivatives first); (f) every 5000th case has 1.2e5..1.6e5 observations (memory and time must stay linear in N: a dense N x N object cannot be allocated here and aborts the child); 30% f32; each case = build, 0..3 parameter updates with queries, fit, fit_with_statistics and every statistics accessor, executed in a child process under a CPU-time watchdog. distinct = hash of the generated problem; non-trivial = hostile value injected or random start");
     ctx.assume(&format!("liveness restated as bounded progress: every case returns within {CPU_BUDGET_S} CPU-seconds (isolated replay: 3x), >=100x the slowest legitimately terminating case of this corpus"));
     ctx.assume("panics are caught inside the child (catch_unwind) and reported as events; the panic location decides whether the subject or the harness panicked");
     let n = ctx.tier.pick(10000, 600000);
